@@ -172,6 +172,8 @@ pub async fn run(seed: u64, sched: Rc<Sched>, keep_log: bool) -> (CaseResult, Ve
                         let (len, chunk, flush_pct) = if boundary { (65_000 + len, 70_000usize, flush_pct / 8) } else { (len, chunk, flush_pct) };
                         let rmode = if complete_readers { wrng.gen_range(0..2) } else { wrng.gen_range(0..4) };
                         let rchunk = [1usize, 3, 50, 1000][wrng.gen_range(0..4)];
+                        // (Boundary runs move 65-70 kB per stream: read in pages, not byte by byte.)
+                        let rchunk = if boundary { 4096 } else { rchunk };
                         let stop_after = wrng.gen_range(0..300u64);
                         let (hw, hr, root_w, root_r) = (hist.clone(), hist.clone(), root.clone(), root.clone());
                         let mut rr = kit::stream(wrng.gen(), "rw");
@@ -235,7 +237,12 @@ pub async fn run(seed: u64, sched: Rc<Sched>, keep_log: bool) -> (CaseResult, Ve
     } else {
         end
     };
-    if !matches!(end, crate::prim::DriveEnd::Done) {
+    if boundary && matches!(end, crate::prim::DriveEnd::StepLimit) {
+        // A boundary run (hundreds of kilobytes) cut short by the harness' own step budget: no
+        // verdict on what was in progress (found by the thorough tier: 2 of 60 000 runs, on the
+        // unchanged tree, were reported as `streams_stuck`).
+        hist.probe("step_budget_exhausted");
+    } else if !matches!(end, crate::prim::DriveEnd::Done) {
         // Workers always time out of `open`; readers end when the peer's writer closes.
         hist.violation("C14", "streams_stuck", format!("application tasks did not finish ({} steps)", sched.steps()));
     }
